@@ -76,6 +76,16 @@ Theorem C04_parse_name_ci : forall d o t, gen d o = Built t ->
   ~ is_trait_const d t (DStr s) -> sem_parse_string t s = Some (c_val c).
 Proof. exact parse_name_ci. Qed.
 
+(* the generator (validateCaseInsensitiveNames) rejects, under -caseInsensitive, names that differ only
+   by case; so whenever generation is defined the lower-cased names are pairwise distinct — the
+   reason a case variant identifies ONE constant in C04_parse_name_ci *)
+Theorem C04_ci_names_distinct : forall d o t, wf_defn d -> gen d o = Built t -> o_ci o = true ->
+  NoDup (map (fun c => to_lower (c_name c)) (d_consts d)).
+Proof. exact built_ci_names_distinct. Qed.
+Theorem C04_ci_collision_rejected : forall d o, o_ci o = true -> sort_values (d_consts d) <> [] ->
+  str_nodupb (map (fun v => to_lower (g_name v)) (sort_values (d_consts d))) = false -> gen d o = GenErr.
+Proof. exact ci_collision_rejected. Qed.
+
 Theorem C04_parse_reject : forall d o t, gen d o = Built t ->
   forall s,
   (forall c, In c (d_consts d) -> c_name c <> s) ->
@@ -130,5 +140,7 @@ Print Assumptions C04_string_undefined.
 Print Assumptions C04_stringvalues.
 Print Assumptions C04_parse_name.
 Print Assumptions C04_parse_name_ci.
+Print Assumptions C04_ci_names_distinct.
+Print Assumptions C04_ci_collision_rejected.
 Print Assumptions C04_parse_reject.
 Print Assumptions C04_string_orig_refuted.
